@@ -1,4 +1,8 @@
 //! wallet_mc — explicit-state and fault-enumeration checks of the SQLite wallet
+mod db;
+mod graph;
+mod universe;
+mod universes;
 mod c01;
 mod c02;
 mod c05;
@@ -23,6 +27,50 @@ fn replay(prop: &str) -> fn(&str, &Value) -> Result<(), String> {
 
 fn main() {
     let args = Args::parse();
+    if args.prop == "PROFILE" {
+        use std::time::Instant;
+        let (u, cfg) = c01::setup("small", 9, 1, 1e9);
+        let t = Instant::now();
+        let mut w = db::new_wallet(&u, 4, false);
+        eprintln!("new_wallet {:?}", t.elapsed());
+        let fresh = (0..u.chains.len()).map(|c| graph::fresh_reference(&u, &cfg, c)).collect();
+        let cx = graph::Ctx { u: &u, cfg: &cfg, fresh };
+        let mut m = graph::Model::default();
+        let f = universes::FIRST;
+        for op in [graph::Op::Scan { from: f, to: f }, graph::Op::Tip { h: f + 6 }, graph::Op::Scan { from: f + 2, to: f + 4 }, graph::Op::Scan { from: f + 1, to: f + 1 }, graph::Op::Rewind { h: f + 3, switch: 1 }, graph::Op::Scan { from: f + 4, to: f + 6 }] {
+            let t = Instant::now();
+            let snap = db::snapshot(w.db.conn());
+            let t_snap = t.elapsed();
+            let t = Instant::now();
+            db::restore(w.db.conn_mut(), &snap);
+            let t_rest = t.elapsed();
+            let t = Instant::now();
+            let r = graph::apply(&mut w, &u, &m, &op).unwrap();
+            let t_apply = t.elapsed();
+            if let graph::StepResult::Done(n) = r {
+                m = n;
+            }
+            let t = Instant::now();
+            let k = graph::canon(w.db.conn());
+            let t_canon = t.elapsed();
+            let t = Instant::now();
+            let c = graph::check_balance(&mut w, &cx, &m);
+            let t_check = t.elapsed();
+            let t = Instant::now();
+            let d = db::dump_digest(w.db.conn(), &[]);
+            let t_dig = t.elapsed();
+            eprintln!("{op:?}: snap {t_snap:?} restore {t_rest:?} apply {t_apply:?} canon {t_canon:?} ({} bytes) check {t_check:?} ok={} digest {t_dig:?} {}", k.len(), c.is_ok(), &d[..8]);
+        }
+        return;
+    }
+    if args.prop == "SCHEMA" {
+        let u = universe::Universe::new(Some(100_110), 100_100, ((1 << 16) - 2, (1 << 16) - 2), 1);
+        let w = db::new_wallet(&u, 4, false);
+        for l in db::schema(w.db.conn()) {
+            println!("{l}");
+        }
+        return;
+    }
     let rp = replay(&args.prop);
     if let Some(p) = &args.replay {
         std::process::exit(replay_file(p, &rp));
